@@ -1,1 +1,39 @@
-pub fn main(_args: &[String]) -> i32 { eprintln!("not implemented yet"); 2 }
+//! In-process library entry point (generate_from_config) with panic capture.
+//! usage: tth gen <config.json>   (standalone GenerateConfig JSON; paths relative to cwd)
+use tauri_typegen::GenerateConfig;
+
+pub fn main(args: &[String]) -> i32 {
+    if args.is_empty() {
+        eprintln!("usage: tth gen <config.json>");
+        return 2;
+    }
+    let text = match std::fs::read_to_string(&args[0]) {
+        Ok(t) => t,
+        Err(e) => {
+            eprintln!("cannot read config: {}", e);
+            return 2;
+        }
+    };
+    let cfg: GenerateConfig = match serde_json::from_str(&text) {
+        Ok(c) => c,
+        Err(e) => {
+            eprintln!("bad config: {}", e);
+            return 2;
+        }
+    };
+    let r = std::panic::catch_unwind(|| tauri_typegen::generate_from_config(&cfg).map_err(|e| e.to_string()));
+    match r {
+        Ok(Ok(files)) => {
+            println!("GEN ok {}", files.join(","));
+            0
+        }
+        Ok(Err(e)) => {
+            eprintln!("GEN error: {}", e);
+            1
+        }
+        Err(_) => {
+            eprintln!("GEN panic");
+            101
+        }
+    }
+}
